@@ -404,6 +404,12 @@ def compare(prop, spec, ops, impl, model):
         exact = [e for e in o.expect if not e.startswith("@")]
         special = [e for e in o.expect if e.startswith("@")]
         bad = None
+        # records handed out for the previous datagram changed while this one was processed (aliasing of a pooled buffer)
+        hc = [l for l in ib if l.startswith("held-changed ")]
+        if hc:
+            failures.append(dict(kind="oracle", idx=i, op=o.line, tag=o.tag,
+                                 detail="%s byte slice(s) of the records formatted for the previous datagram (JSON / text / binary / key, as a transport holds them) changed while this datagram was processed" % hc[0].split()[1]))
+            continue
         # C02: measured allocation (impl: `alloc <bytes> <len>`) and modelled cost (model: `cost <bytes> <widest>`)
         if o.line.startswith("allocpkt "):
             al = [l for l in ib if l.startswith("alloc ")]
